@@ -281,10 +281,11 @@ def classify(clause, ts, path, cell, rec):
     """Deterministic class key, a function of the *input shape* only: synonym group of the declared type, ingestion
     path, value class of the written value (mc/ref/c01_model: tgroup, vclass, df_dtype_label).  Never derived from the
     observed value, the message text or fakesnow internals.  The NULL placement is not part of the key."""
-    if path == "wp_auto":
-        # the declared type plays no role with auto_create_table: the DataFrame dtype decides the column
-        return f"path=wp_auto,dtype={rec['dtype']}"
     tg = M.tgroup(ts)
+    if path == "wp_auto":
+        # the declared type plays no role with auto_create_table: the DataFrame column decides.  Whether the write is
+        # accepted is a matter of its dtype; what comes back is a matter of the kind of column it stands for.
+        return f"path=wp_auto,dtype={rec['dtype']}" if clause == "C01.accept" else f"path=wp_auto,column={tg}"
     if clause == "C01.pytype":
         return f"type={tg}"  # the Python type of a column is a function of its declared type alone
     value = next((v for _, v in cell["rows"] if v is not None), None)
@@ -383,15 +384,18 @@ def run_batch(item, acc: core.Acc, tier):
     ts = M.TYPE_BY_NAME[tname]
     cells = M.cells(ts, path, tier)
     out = execute_batch(ts, path, cells)
-    acc.count("batches")
-    acc.count("statements", out["stmts"])
-    acc.obs((item, out["setup"], sorted(out["blocked"]), repr(out["readback"]), repr(sorted(out["cells"].items())), out["bystander"]))
-    judge(ts, path, cells, out, acc, tier)
-    if cells:
-        c = cells[min(1, len(cells) - 1)]
-        acc.sample({"type": tname, "path": path, "shape": c["shape"], "null_placement": c["null"],
-                    "rows_written": c["rows"], "statement": out["cells"].get(c["k"], {}).get("sql")})
-    return len(cells)
+    local = core.Acc()
+    local.count("batches")
+    local.count("statements", out["stmts"])
+    local.obs((item, out["setup"], sorted(out["blocked"]), repr(out["readback"]), repr(sorted(out["cells"].items())), out["bystander"]))
+    judge(ts, path, cells, out, local, tier)
+    c = cells[min(1, len(cells) - 1)]
+    sample = core.jsonable({"type": tname, "path": path, "shape": c["shape"], "null_placement": c["null"],
+                            "rows_written": c["rows"], "statement": out["cells"].get(c["k"], {}).get("sql"),
+                            "cells_in_batch": len(cells)})
+    first = {k: {"detail": v["detail"], "replay": v["replay"]} for k, v in local.viol.items()}
+    acc.merge(local)
+    return {"cells": len(cells), "first": first, "sample": sample}
 
 
 def items_for(tier):
@@ -414,6 +418,18 @@ def run(ctx: core.Ctx):
     ]
     items = items_for(ctx.tier)
     res = ctx.pmap(run_batch, items, chunk=2)
+    # the stored example of each class is the one of the first batch in *canonical* order (independent of VERIF_SEED
+    # and of pool scheduling)
+    order = {it: n for n, it in enumerate(items)}
+    chosen = {}
+    for it, r in sorted(res, key=lambda x: order[tuple(x[0])]):
+        for k, v in r["first"].items():
+            chosen.setdefault(k, v)
+    for k, v in chosen.items():
+        if k in ctx.acc.viol:
+            ctx.acc.viol[k].update(v)
+    ordered = [r for _, r in sorted(res, key=lambda x: order[tuple(x[0])])]
+    ctx.acc.samples = [ordered[i]["sample"] for i in sorted({0, len(ordered) // 3, 2 * len(ordered) // 3, len(ordered) - 1})]
     ctx.exhaustive = True
     ctx.extra["alphabet"] = {
         "types": [t["sql"] for t in M.TYPES],
@@ -426,7 +442,7 @@ def run(ctx: core.Ctx):
         },
     }
     ctx.extra["batches_planned"] = len(items)
-    ctx.extra["cells_planned"] = sum(n for _, n in res)
+    ctx.extra["cells_planned"] = sum(r["cells"] for _, r in res)
     ctx.extra["bound"] = "full product of the stated alphabets" + (" (quick: reduced value/placement alphabets)" if ctx.quick else "")
 
 
